@@ -348,6 +348,9 @@ func (r *Resolver) onSetOrList(g *Scope, name string, t *parser.Type, v *parser.
 			if err != nil {
 				return "", err
 			}
+			if r.util.Features().ValueTypeForSIC && t.ValueType.Category.IsStructLike() {
+				str = strings.TrimPrefix(str, "&") // value_type_in_container: elements are values
+			}
 			ss = append(ss, str+",")
 		}
 		if len(ss) == 0 {
@@ -384,6 +387,9 @@ func (r *Resolver) onMap(g *Scope, name string, t *parser.Type, v *parser.ConstV
 			val, err := r.resolveConst(g, valName, t.ValueType, mcv.Value)
 			if err != nil {
 				return "", err
+			}
+			if r.util.Features().ValueTypeForSIC && t.ValueType.Category.IsStructLike() {
+				val = strings.TrimPrefix(val, "&") // value_type_in_container: elements are values
 			}
 			kvs = append(kvs, fmt.Sprintf("%s: %s,", key, val))
 		}
